@@ -59,6 +59,8 @@ type Exec struct {
 	recDepth map[string]int
 	recDone  map[*Term]bool
 	absDivs  map[*Term]bool
+	mapTags  map[string]int64
+	entryAlloc *Term
 }
 
 type closureInfo struct {
@@ -1048,7 +1050,11 @@ func (fr *Frame) havocTargets(s, pre *State, targets []target, g *Term) {
 			s.mem = map[string]*Term{}
 			s.ep = newEpoch()
 			for k := range s.ghost {
-				s.ghost[k] = c.Fresh("ghost_"+k, s.ghost[k].sort)
+				old := s.ghost[k]
+				s.ghost[k] = c.Fresh("ghost_"+sanitize(k), old.sort)
+				if k == "$clock" { // time only moves forward
+					x.assume(g, c.BVCmp("bvsge", s.ghost[k], old))
+				}
 			}
 			x.note("havoc of the whole heap at a call or loop without a frame in " + shortKey(fr.key))
 			return
@@ -1234,14 +1240,27 @@ func (x *Exec) addrWF(a *Term) *Term {
 // assumeWF: type invariants of a symbolic value (slice header sanity, reference allocatedness).
 func (x *Exec) assumeWF(g *Term, v *Term, t types.Type, st *State) {
 	c := x.c
+	// A reference read from memory that has not been written since the function
+	// was entered existed at entry: its object is older than every object this
+	// function allocates.
+	bound := st.alloc
+	if x.entryAlloc != nil {
+		base := v
+		for base.op == "select" {
+			base = base.args[0]
+		}
+		if base.op == "var" && (strings.HasPrefix(base.name, "mem0_")) && base != v {
+			bound = x.entryAlloc
+		}
+	}
 	switch v.sort {
 	case SSlice:
 		lim := c.BV(1<<56, 64)
 		x.assume(g, c.And(c.BVCmp("bvule", c.SlLen(v), c.SlCap(v)), c.BVCmp("bvule", c.SlCap(v), lim), c.BVCmp("bvule", c.SlOff(v), lim),
-			c.IntCmp("<", c.RRoot(c.SlPtr(v)), st.alloc),
+			c.IntCmp("<", c.RRoot(c.SlPtr(v)), bound),
 			c.Implies(c.Eq(c.SlPtr(v), c.Null()), c.Eq(c.SlCap(v), c.BV(0, 64)))))
 	case SRef:
-		x.assume(g, c.IntCmp("<", c.RRoot(v), st.alloc))
+		x.assume(g, c.IntCmp("<", c.RRoot(v), bound))
 	case SStr:
 		x.assume(g, c.BVCmp("bvule", c.StrLen(v), c.BV(1<<56, 64)))
 	case "Addr":
